@@ -22,7 +22,7 @@ from ..runner import CaseResult, digest
 ID = "C16"
 RULE = ("domains ma1 (STRIPS, shared (lit), negative preconditions), ma2 (numeric: per-agent fuel, shared total), ma3 "
         "(forall-when and when effects); agents 2 (quick) / 3 (thorough); every joint action = one call of the agent or nop "
-        "per slot (not all nop) x every state over the atoms/fluents the members mention (<= 7 atoms, fluents on a grid) "
+        "per slot (not all nop), and every call listed in two slots, x every state over the atoms/fluents the members mention (<= 7 atoms, fluents on a grid) "
         "x every permutation of the slots; judged: all members applicable + non-interfering (equality with the sequential "
         "result), exactly one member inapplicable (refusal / allow switch); single-slot joint actions incl. [nop]; exported "
         "joint trajectories of all 1-2 step joint plans from the initial state (incl. all-idle steps, a parameterless member, the same plans read from bracketed / plain files with and without a final line end, strict-lenient-strict on one exporter); ma2b = ma2 without a numeric requirement flag. non-trivial = a joint action with >= 2 "
@@ -46,6 +46,14 @@ def cases(tier):
                     continue
                 yield {"domain": name, "agents": n,
                        "joint": [None if c is None else [c[0], *c[1]] for c in joint]}
+            # the same grounded call in two slots (a collaborative action listed once per participating agent): it is
+            # two members, applied twice when that is executable and confluent
+            for a in agents:
+                for c in per[a]:
+                    for other_slot in range(1, n):
+                        joint = [None] * n
+                        joint[0] = joint[other_slot] = [c[0], *c[1]]
+                        yield {"domain": name, "agents": n, "joint": joint, "repeated": True}
             yield {"domain": name, "agents": n, "joint": None, "kind": "single-slot"}
             yield {"domain": name, "agents": n, "joint": None, "kind": "trajectory"}
 
